@@ -317,15 +317,24 @@ def find_def(src, fname):
     return None
 
 
-def call_sites(src, fname, modname):
-    """calls of fname (as `fname(...)` or `modname.fname(...)`) in textual order."""
+def _offset(lines, lineno, col):
+    return sum(len(l) + 1 for l in lines[:lineno - 1]) + col
+
+
+def call_sites(src, fname, modname, method=False):
+    """calls of fname in textual order: `fname(...)` / `modname.fname(...)` for a function; `<receiver>.fname(...)` with
+    any receiver expression for a method.  For a method call "args" starts with the source text of the whole receiver
+    (what Python binds to self), "recv" is that text and "head" the text in front of the opening parenthesis."""
     tree = ast.parse(src)
     found = []
     for node in ast.walk(tree):
         if isinstance(node, ast.Call):
             f = node.func
-            ok = (isinstance(f, ast.Name) and f.id == fname) or (
-                isinstance(f, ast.Attribute) and f.attr == fname and isinstance(f.value, ast.Name) and f.value.id == modname)
+            if method:
+                ok = isinstance(f, ast.Attribute) and f.attr == fname
+            else:
+                ok = (isinstance(f, ast.Name) and f.id == fname) or (
+                    isinstance(f, ast.Attribute) and f.attr == fname and isinstance(f.value, ast.Name) and f.value.id == modname)
             if ok:
                 found.append(node)
     found.sort(key=lambda n: (n.lineno, n.col_offset))
@@ -336,9 +345,12 @@ def call_sites(src, fname, modname):
         star = any(isinstance(a, ast.Starred) for a in node.args)
         kws = [(k.arg, seg(src, k.value)) for k in node.keywords if k.arg is not None]
         kwstar = any(k.arg is None for k in node.keywords)
-        offset = sum(len(l) + 1 for l in lines[:node.lineno - 1]) + node.col_offset
-        out.append({"text": seg(src, node), "args": pos, "kws": kws, "star": star, "kwstar": kwstar, "offset": offset,
-                    "name_offset": offset + (len(seg(src, node.func)) - len(fname)), "lineno": node.lineno})
+        offset = _offset(lines, node.lineno, node.col_offset)
+        name_offset = _offset(lines, node.func.end_lineno, node.func.end_col_offset) - len(fname)
+        recv = seg(src, node.func.value) if method else None
+        out.append({"text": seg(src, node), "args": ([recv] if method else []) + pos, "kws": kws, "star": star,
+                    "kwstar": kwstar, "offset": offset, "name_offset": name_offset, "lineno": node.lineno,
+                    "recv": recv, "head": seg(src, node.func)})
     return out
 
 
